@@ -1,19 +1,20 @@
 CONSTANTS
   Parent <- MCParent
-  QNames = {3, 4, 5}
-  ZNames = {1, 2}
-  Types = {1, 2}
+  QNames = {3, 5}
+  ZNames = {2}
+  Types = {1}
   Classes = {1}
   CDs = {0, 1}
-  Scopes = {0, 1}
+  Scopes = {0}
   Min = 1
-  Max = 4
+  Max = 2
   Enabled = TRUE
-  Cap = 2
+  Cap = 3
   MaxLive = 99
   ApiOps = TRUE
   SeqReq = TRUE
   Reqs = {}
+  LocalKinds = {"deadline"}
 INIT Init
 NEXT Next
 VIEW View
